@@ -573,8 +573,8 @@ func (g *gen) smallSequence(r *hx.Rng) {
 
 func (g *gen) bigSequence(r *hx.Rng) {
 	q := &reqSpec{big: true}
-	q.maxmbOpt = r.PickInt([]int{1, 1, 1, 2})
-	q.maxmbQ = r.PickInt([]int{0, 0, 0, 1, 2})
+	q.maxmbOpt = r.PickInt([]int{1, 1, 1, 1, 2, 2, 0, 2048})
+	q.maxmbQ = r.PickInt([]int{0, 0, 0, 0, 1, 1, 2, 2, 2048, 4097, -3})
 	limit := r.PickInt([]int{0, 0, 1000, MiB + 1, 2*MiB + 5})
 	q.limit = int64(limit)
 	lens := []int{0, 1, limit - 1, limit + 1, MiB - 1, MiB, MiB + 1, 2*MiB - 1, 2 * MiB, 2*MiB + 1, 2*MiB + MiB/2}
@@ -608,21 +608,22 @@ func (g *gen) bigSequence(r *hx.Rng) {
 	g.emit(t, q, "big")
 }
 
-// witnesses of the known findings: emitted first, independent of the seed.
+// the inputs on which the unrepaired code violated the property (former findings
+// 0-3): emitted first, independent of the seed; they must now be plain ok cases.
 func (g *gen) witnesses() {
-	// k=0: a body read error ends the chunk loop silently; the prefix is committed with 201
+	// former k=0: a body read error must fail the request (499) and commit nothing
 	g.emit(g.newTarget(false, "f"), &reqSpec{method: mPut, cs: 2, body: []byte{1, 2, 3}, ending: endErr}, "witness0")
-	// k=1: append after an entry created through gRPC with FileSize 0 (as S3 multipart completion does)
+	// former k=1: append after an entry created through gRPC with FileSize 0 (as S3 multipart completion does)
 	t := g.newTarget(false, "f")
 	g.w.createViaGrpc(t.path(), []int64{0}, [][]byte{[]byte("abc")}, 0)
 	g.emit(t, &reqSpec{method: mPut, cs: 4, body: []byte("Z"), app: true}, "witness1")
-	// k=2: saveToFilerLimit above the chunk size: the first chunk is inlined and the rest dropped
+	// former k=2: saveToFilerLimit above the chunk size: must be chunked, nothing dropped
 	g.emit(g.newTarget(false, "f"), &reqSpec{method: mPut, cs: 2, limit: 4, body: []byte{1, 2, 3}}, "witness2")
-	// k=2 (second disjunct): any path under /etc
+	// former k=2 (second disjunct): any path under /etc
 	g.emit(g.newTarget(true, "f"), &reqSpec{method: mPut, cs: 2, body: []byte{1, 2, 3}}, "witness2")
-	// k=3: maxMB=2048 wraps the int32 chunk size to -2^31: nothing is read, 201
+	// former k=3: maxMB=2048 would wrap the int32 chunk size to -2^31: must be rejected (400)
 	g.emit(g.newTarget(false, "f"), &reqSpec{big: true, method: mPut, maxmbQ: 2048, maxmbOpt: 1, body: []byte("hello")}, "witness3")
-	// k=0 and k=2 through the real autoChunk (1 MiB chunks)
+	// former k=0 and k=2 through the real autoChunk (1 MiB chunks)
 	body := make([]byte, MiB+3)
 	for i := range body {
 		body[i] = byte(i * 7)
@@ -633,7 +634,7 @@ func (g *gen) witnesses() {
 
 func main() {
 	out := hx.Flags("C25", 150)
-	out.Rule = "sequences of 1-4 write requests on one path through the real filer write handlers over leveldb2 with a fake master (Assign) and a fake volume server; Small cases: chunk size in {1,2,3,4,5,8,16} BYTES entered through the verif hook (doPutAutoChunk/doPostAutoChunk called with an explicit chunk size), saveToFilerLimit in {0,1,cs-1,cs,cs+1,2cs+1,100}, body lengths around 0/limit/chunk multiples, body ending Eof / read error (separately or together with the last bytes), methods PUT / POST multipart (dir URL, path URL) / POST raw, op=append after HTTP-created, gRPC-created (FileSize attribute 0 / extent-1 / extent / above) and missing entries, cipher on/off, compressible and binary contents, scripted failures (all assigns, one chunk always, one chunk once); Big cases: the same through filerHandler/PostHandler/autoChunk with maxMB 1 or 2 and bodies of 0,1,limit+-1,1MiB+-1,2MiB+-1,2.5MiB (lengths, offsets, CRC32s to Coq); the first 7 cases are the fixed witnesses of the known findings; non-trivial = status 201 with a non-empty body and a stored entry; distinct = canonical request parameters + body CRC + pre-state shape"
+	out.Rule = "sequences of 1-4 write requests on one path through the real filer write handlers over leveldb2 with a fake master (Assign) and a fake volume server; Small cases: chunk size in {1,2,3,4,5,8,16} BYTES entered through the verif hook (doPutAutoChunk/doPostAutoChunk called with an explicit chunk size), saveToFilerLimit in {0,1,cs-1,cs,cs+1,2cs+1,100}, body lengths around 0/limit/chunk multiples, body ending Eof / read error (separately or together with the last bytes), methods PUT / POST multipart (dir URL, path URL) / POST raw, op=append after HTTP-created, gRPC-created (FileSize attribute 0 / extent-1 / extent / above) and missing entries, cipher on/off, compressible and binary contents, scripted failures (all assigns, one chunk always, one chunk once); Big cases: the same through filerHandler/PostHandler/autoChunk with maxMB 1 or 2 (and a few rejected values: 0, negative, 2048, 4097) and bodies of 0,1,limit+-1,1MiB+-1,2MiB+-1,2.5MiB (lengths, offsets, CRC32s to Coq); the first 7 cases are the fixed inputs on which the unrepaired code failed (former findings 0-3); non-trivial = status 201 with a non-empty body and a stored entry; distinct = canonical request parameters + body CRC + pre-state shape"
 	g := &gen{w: newWorld(), out: out}
 	defer g.w.close()
 	g.witnesses()
